@@ -207,18 +207,11 @@ Example refused_sequence_runs :
   inv_b (run_on g_pair ops_refused) = true.
 Proof. vm_compute. auto. Qed.
 
-(** finding delete_connection:self-connection: a block connected with itself records the connection name once;
-    delete_connection (and delete_block, which calls it) removes it once per end, raises KeyError at the second end
-    and leaves the connection in the grid without its record *)
+(** a block connected with itself (repaired in /repo, 3ad8118: it used to make delete_connection / delete_block raise KeyError
+    half way): the name is recorded once and removed once; both deletions succeed and leave a consistent grid *)
 Definition g_self : grid := result (run empty [AddRock r1; AddBlock a1 r1; AddConn a1 a1]).
-Lemma g_self_inv : Inv g_self.
-Proof. apply inv_b_sound. vm_compute. reflexivity. Qed.
-Theorem delete_self_connection_refuted :
-  exists g a, Inv g /\ step g (DelConn a a) = Raise KeyError /\ step g (DelBlock a) = Raise KeyError /\
-              ~ Inv (after g (DelConn a a)) /\ ~ Inv (after g (DelBlock a)).
-Proof.
-  exists g_self, a1. split; [exact g_self_inv|]. split; [vm_compute; reflexivity|]. split; [vm_compute; reflexivity|].
-  split; intro X.
-  - assert (K := proj2 (i_back _ X 2%positive ltac:(vm_compute; auto) (a1, a1))). vm_compute in K. apply K. exists 3%positive. auto.
-  - assert (K := proj2 (i_back _ X 2%positive ltac:(vm_compute; auto) (a1, a1))). vm_compute in K. apply K. exists 3%positive. auto.
-Qed.
+Example delete_self_connection_ok :
+  inv_b g_self = true /\
+  (exists g', step g_self (DelConn a1 a1) = Ok g' /\ clist g' = [] /\ cn g' 2%positive = [] /\ inv_b g' = true) /\
+  (exists g', step g_self (DelBlock a1) = Ok g' /\ blist g' = [] /\ clist g' = [] /\ inv_b g' = true).
+Proof. split; [vm_compute; reflexivity|]. split; eexists; (split; [vm_compute; reflexivity|]); vm_compute; auto. Qed.
